@@ -11,7 +11,7 @@
 static uint64_t hs;
 static uint32_t hr(uint32_t n) { hs ^= hs << 13; hs ^= hs >> 7; hs ^= hs << 17; return n ? (uint32_t)((hs >> 11) % n) : 0; }
 
-#define HOSTILE_CLASSES 12
+#define HOSTILE_CLASSES 13
 int hostile_classes(void) { return HOSTILE_CLASSES; }
 
 /* pick the k-th instruction of function f; returns its offset in mod->code or -1 */
@@ -97,6 +97,13 @@ bool hostile_make(const uint8_t *d, size_t n, uint32_t mseed, Buf *out, char *de
         memmove(mod->code + dst, mod->code + src, len);
         snprintf(desc, dsz, "splice %u bytes code+%u -> code+%u", len, src, dst);
         break; }
+    case 12: {   /* offset/length PAIRS whose sum wraps around 32 bits or lands exactly on a boundary */
+        static const uint32_t pairs[][2] = { { 0x80000000u, 0x80000000u }, { 0xFFFFFFFFu, 1 }, { 0xFFFFFF00u, 0x100 }, { 0xFFFFFF00u, 0x101 }, { 1, 0xFFFFFFFFu }, { 0x7FFFFFFFu, 0x80000001u } };
+        uint32_t k = hr(8);
+        if (k < 6) { fn->code_offset = pairs[k][0]; fn->code_length = pairs[k][1]; }
+        else if (k == 6) { fn->code_offset = mod->code_size; fn->code_length = 0; }
+        else { fn->code_offset = mod->code_size + 1; fn->code_length = 0xFFFFFFFFu - mod->code_size; }
+        snprintf(desc, dsz, "fn[%u].code_offset=0x%x code_length=0x%x", f, fn->code_offset, fn->code_length); break; }
     case 10: case 11: {   /* raw patch of the section directory / header fields, checksum recomputed */
         blob = nvm_serialize(mod, &bsz);
         if (!blob || bsz < NVM_HEADER_SIZE + NVM_SECTION_ENTRY_SIZE) goto fail;
